@@ -54,6 +54,7 @@ def sweep(ctx, binary, prop, count, seed_salt=0, timeout=1800):
         viol += p["violations"]
         samples += p["samples"][:1]
         blurs.add(p.get("blur_ns"))
+        agg["distinct_capped"] = agg.get("distinct_capped", False) or p.get("distinct_capped", False)
     agg["blur_ns"] = sorted(b for b in blurs if b is not None)
     agg["cells"] = cells
     agg["outcomes"] = outcomes
